@@ -172,6 +172,8 @@ class RealRun:
 
             def handle_event(self, event):
                 ctx = event.context
+                if "uid" not in ctx:               # event re-created by control.reset(): only metadata survives
+                    ctx = ctx.get("metadata") or {}
                 uid = ctx.get("uid")
                 now = self.now.nanoseconds
                 run.log.append(("D", now, self.idx, KINDS.index(event.event_type), uid))
@@ -272,7 +274,7 @@ class RealRun:
         self.born[uid] = (self.sim._clock.now.nanoseconds if hasattr(self, "sim") else 0, t_ns)
         ev = self.Event(time=self.Instant(t_ns), event_type=KINDS[em["kind"] % 3],
                         target=self.ents[em["tgt"] % self.prog["n"]], daemon=bool(em.get("daemon")),
-                        context={"uid": uid, "fuel": fuel})
+                        context={"uid": uid, "fuel": fuel, "metadata": {"uid": uid, "fuel": fuel}})
         for hk in (em.get("hooks") or []):
             ev.add_completion_hook(self._hook(uid, list(hk), fuel))
         if em.get("h") is not None:
